@@ -185,7 +185,7 @@ func checkPaginationShape(c *Ctx, fn *ssa.Function, name string) {
 			c.Violate("R20.2", key+":negative-rejected", w.FnPos(fn), "a negative '"+strings.ToLower(field)+"' is not rejected with an error before it is used as a slice bound (index out of range panic)")
 			continue
 		}
-		cont := neg.If.Block().Succs[1-errEdge(neg.If, defaultFail)]
+		contEdge := 1 - errEdge(neg.If, defaultFail)
 		nSlices := 0
 		okSlices := true
 		detail := ""
@@ -203,7 +203,7 @@ func checkPaginationShape(c *Ctx, fn *ssa.Function, name string) {
 				nSlices++
 				c.Sites++
 				sliceBlocks = append(sliceBlocks, b)
-				if !cont.Dominates(b) {
+				if !edgeDominates(neg.If.Block(), contEdge, b) {
 					okSlices, detail = false, "a slice bounded by "+field+" at "+w.InstrPos(sl)+" is reachable without the negative-size test"
 				}
 				// len(edges) > n
